@@ -14,6 +14,12 @@ Assumed contracts of what is *not* plumpy (trusted base, exercised through the r
   copy) and runs ready callbacks of the same loop — of any task except those whose callback is still on the Python call
   stack — until `f` is done; it tests `f.done()` after every callback and then returns into the calling code.
 
+* `await coro()` runs the awaited coroutine inside the awaiting task: same task, same context, same stack variable.
+* asyncio cancellation: `Task.cancel()` on a task that is suspended (or has not started) makes it ready; the
+  `CancelledError` is thrown into the coroutine, at the point where it is suspended (at its very start if it never ran),
+  when the task runs next; a coroutine that catches it carries on as after any exception.  `CancelledError` is a
+  `BaseException` that is not an `Exception`.  A task whose coroutine ends with an exception is done.
+
 plumpy side, mirrored function by function:
 
 * `Process._process_scope`  → `Op.push p` / `Op.pop p` (the `assert Process.current() is self` is `Err.scopeAssertion`)
@@ -23,6 +29,16 @@ plumpy side, mirrored function by function:
 * `Process.execute()`       → `Op.execute p cls`: construct, new task, nested `run_until_complete`
 * `Process.step`/`step_until_terminated` → `stepperOps`: `_run_task(self._state.execute)` and **after it returned**
   `transition_to(next_state)`, which fires the lifecycle hooks (`transitionHooks`) — outside the scope, as in the code.
+* a child awaited **inline** (`child = Cls(..)`, then `await child.step_until_terminated()` inside a step or callback of `p`,
+  in a `try` whose `except BaseException` absorbs whatever comes out) → `Op.inline p cls`: no new task, no new context;
+  the child's coroutine runs inside the awaiting task (`stepperOps` of the child spliced in front of `Op.handler p`), so the
+  scope stack while the child steps is the parent's plus the child.
+* a step left through a **BaseException** — `raise BaseBoom()` in user code (`Op.throw`), or `task.cancel()` from outside
+  (`Event.cancel`, `CancelledError` thrown at the await point the task is suspended at when it next runs) → `unwind`:
+  neither `Running.execute`, `Waiting.execute` nor `step` catch it (`except Exception`); the only code that runs while it
+  propagates is the `finally` of every open `_process_scope` (assert + pop, innermost first), up to the innermost
+  absorbing handler; without one the coroutine, hence the task, ends.  No transition, no hook: the process stays in the
+  state it was in.
 
 The stack is kept newest first (`head` = top = `PROCESS_STACK.get()[-1]`); the driver prints it bottom first.
 -/
@@ -57,6 +73,8 @@ inductive Kind
   | xret     -- after `Other(..).execute()` returned
   | csret    -- after `self.call_soon(..)` returned
   | uret     -- after `self.out(..)` returned
+  | iret     -- after the `try: await child.step_until_terminated() except BaseException: ..` statement (child awaited inline)
+  | absorbed -- inside that `except BaseException` clause: a BaseException / cancellation came out of the inline child
   | hook (h : Hook)
 deriving DecidableEq, Repr, Inhabited
 
@@ -75,10 +93,17 @@ def Kind.isLifecycleHook : Kind → Bool
 inductive Act
   | obs | await | out
   | callSoon (cb : Nat) | launch (cls : Nat) | execute (cls : Nat)
+  | inline (cls : Nat)     -- `c = Cls(..)`; `try: await c.step_until_terminated()` / `except BaseException:` sample, carry on
 deriving DecidableEq, Repr, Inhabited
 
-/-- how a step function ends: `Continue(next)`, `Wait(next)`, plain return, or an exception -/
-inductive End | next | wait | finish | raise
+/-- how a step function ends: `Continue(next)`, `Wait(next)`, plain return, an `Exception`, or a `BaseException`
+that is not an `Exception` (`raiseBase`) -/
+inductive End | next | wait | finish | raise | raiseBase
+deriving DecidableEq, Repr, Inhabited
+
+/-- how a `_process_scope` was left: the awaited code returned; an `Interruption` (kill of a waiting process) was raised
+through it; a BaseException raised by user code propagated through it; the task was cancelled while suspended inside it -/
+inductive Exit | returned | interrupted | baseException | cancelled
 deriving DecidableEq, Repr, Inhabited
 
 structure Step where
@@ -95,13 +120,19 @@ deriving Repr, Inhabited
 
 inductive Op
   | push (p : Pid)
-  | pop (p : Pid)
+  | pop (p : Pid) (how : Exit)     -- the `finally:` of `_process_scope` (assert + pop); `how` only labels the record
   | obs (p : Pid) (k : Kind)
   | yield
   | park
   | callSoon (p : Pid) (cb : Nat)
   | launch (p : Pid) (cls : Nat)
   | execute (p : Pid) (cls : Nat)
+  | inline (p : Pid) (cls : Nat)   -- construct the child, enter the `try`, start awaiting its `step_until_terminated()`
+  | handler (p : Pid) (atTry : List Pid) (absorbing : Bool)
+      -- end of that `try` block; `absorbing` = reached by `unwind` (the `except` clause runs: the `absorbed` sample), else
+      -- reached because the awaited coroutine returned (nothing to do).  `atTry` = the task's stack when the `try` was
+      -- entered: a history variable, only copied into the `Join` record
+  | throw                          -- `raise BaseBoom()`
 deriving DecidableEq, Repr, Inhabited
 
 def actOps (p : Pid) (inCb : Bool) : Act → List Op
@@ -111,13 +142,38 @@ def actOps (p : Pid) (inCb : Bool) : Act → List Op
   | .callSoon cb => [.callSoon p cb, .obs p .csret]
   | .launch c => [.launch p c, .obs p .lret]
   | .execute c => [.execute p c, .obs p .xret]
+  | .inline c => [.inline p c, .obs p .iret]
 
 /-- the body of a user function of process `p` -/
 def codeOps (p : Pid) (inCb : Bool) (code : List Act) : List Op :=
   .obs p (if inCb then .cbseg else .seg) :: code.flatMap (actOps p inCb)
 
 /-- `Process._run_task`: `with self._process_scope(): result = await coro()` -/
-def runTask (p : Pid) (body : List Op) : List Op := .push p :: (body ++ [.pop p])
+def runTask (p : Pid) (body : List Op) : List Op := .push p :: (body ++ [.pop p .returned])
+
+/-- a BaseException is raised at the head of the remaining coroutine `c` of a task (`d` = number of scopes of the skipped
+code that were not entered yet): everything is skipped except the `finally` of the scopes that are open — in order,
+innermost first — up to the innermost absorbing handler, which takes its sample and carries on; if there is none the
+coroutine ends.  (A handler never lies inside a scope that has not been entered: handlers are only created by `Op.inline`
+when it executes; that case skips.) -/
+def unwind (how : Exit) : Nat → List Op → List Op
+  | _, [] => []
+  | d, .push _ :: c => unwind how (d + 1) c
+  | 0, .pop p _ :: c => .pop p how :: unwind how 0 c
+  | d + 1, .pop _ _ :: c => unwind how d c
+  | 0, .handler p s0 _ :: c => .handler p s0 true :: c
+  | d, _ :: c => unwind how d c
+
+/-- what remains of a coroutine once the process whose stepping coroutine is at its head has terminated (`d` = number of
+its scopes skipped so far that were not entered): the code from the end of the inline await of that process on; `[]` for a
+process that steps in a task of its own.  (The exit of a scope that is open is not code of that process: skipping stops.) -/
+def toHandler : Nat → List Op → List Op
+  | _, [] => []
+  | d, .push _ :: c => toHandler (d + 1) c
+  | 0, .pop p how :: c => .pop p how :: c
+  | d + 1, .pop _ _ :: c => toHandler d c
+  | 0, .handler p s0 a :: c => .handler p s0 a :: c
+  | d, _ :: c => toHandler d c
 
 /-- `Process.on_exiting` -/
 def onExiting : Label → List Hook
@@ -155,15 +211,21 @@ def hooksOps (p : Pid) (hs : List Hook) : List Op := hs.map (fun h => .obs p (.h
 /-- the constructor: `StateMachineMeta.__call__` enters the initial state -/
 def constructorHooks : List Hook := transitionHooks none initialLabel
 
+/-- the body of a step function: its code, then `raise BaseBoom()` if that is how it ends (the other endings are return
+values, or an `Exception` that `Running.execute` turns into the EXCEPTED state: `_run_task` returns normally) -/
+def stepBody (p : Pid) (s : Step) : List Op :=
+  codeOps p false s.code ++ (match s.end_ with | .raiseBase => [.throw] | _ => [])
+
 /-- `step_until_terminated` from the RUNNING state on: one `step()` per user step function.
 `step()` = `_run_task(self._state.execute)`, then `transition_to(next_state)`. -/
 def stepsOps (p : Pid) : List Step → List Op
   | [] => []
   | s :: rest =>
-    runTask p (codeOps p false s.code) ++
+    runTask p (stepBody p s) ++
     match s.end_ with
     | .finish => hooksOps p (transitionHooks (some .running) .finished)
     | .raise => hooksOps p (transitionHooks (some .running) .excepted)
+    | .raiseBase => []             -- unreachable: the body ended with `throw`; nothing of this process follows
     | .next => hooksOps p (transitionHooks (some .running) .running) ++ stepsOps p rest
     | .wait => hooksOps p (transitionHooks (some .running) .waiting)
                ++ runTask p [.park]      -- `_run_task(Waiting.execute)`: `await self._waiting_future`
@@ -184,6 +246,7 @@ structure Task where
   parked : Bool := false           -- suspended on a WAITING future until `resume`
   waitingOn : Option Tid := none   -- inside a nested `run_until_complete` on that task
   saved : List (List Pid) := []    -- history variable: the stack at the entry of every open scope
+  cancelReq : Bool := false        -- `task.cancel()` was called; the `CancelledError` is thrown when the task next runs
 deriving Repr, Inhabited
 
 structure Obs where
@@ -200,6 +263,17 @@ structure ScopeExit where
   pid : Pid
   before : List Pid
   after : List Pid
+  how : Exit := .returned
+deriving Repr, Inhabited, DecidableEq
+
+/-- record of a completed inline await (`try: await child.step_until_terminated()` / `except BaseException`): the
+awaiting task's stack when the `try` was entered and when the awaiting code carries on -/
+structure Join where
+  tid : Tid
+  pid : Pid              -- the awaiting process
+  before : List Pid
+  after : List Pid
+  absorbed : Bool        -- a BaseException / cancellation came out of the child and was absorbed
 deriving Repr, Inhabited, DecidableEq
 
 inductive Err
@@ -216,6 +290,7 @@ structure State where
   callStack : List Tid := []     -- tasks inside a nested `run_until_complete`, innermost first
   log : List Obs := []           -- newest first
   scopes : List ScopeExit := []  -- newest first
+  joins : List Join := []        -- newest first
   err : Option Err := none
 deriving Repr, Inhabited
 
@@ -258,11 +333,11 @@ def exec1 (σ : State) (t : Tid) : State × Ctl :=
       match op with
       | .push p =>
         ({ σ with tasks := σ.tasks.set t { T with code := rest, stack := p :: T.stack, saved := T.stack :: T.saved } }, .cont)
-      | .pop p =>
+      | .pop p how =>
         if current T.stack = some p then
           ({ σ with
               tasks := σ.tasks.set t { T with code := rest, stack := T.stack.tail, saved := T.saved.tail },
-              scopes := ⟨t, p, T.saved.headD [], T.stack.tail⟩ :: σ.scopes }, .cont)
+              scopes := ⟨t, p, T.saved.headD [], T.stack.tail, how⟩ :: σ.scopes }, .cont)
         else ({ σ with err := some .scopeAssertion }, .error)
       | .obs p k =>
         ({ σ with tasks := σ.tasks.set t { T with code := rest },
@@ -284,6 +359,21 @@ def exec1 (σ : State) (t : Tid) : State × Ctl :=
         | some (σ', u) =>
           ({ σ' with tasks := σ'.tasks.set t { T with code := rest, waitingOn := some u },
                      callStack := t :: σ'.callStack }, .blocked)
+      | .inline p cls =>
+        -- the constructor runs here (its hooks see this task's stack); the child's coroutine is awaited in this very task
+        match σ.scn.classes[cls]? with
+        | none => ({ σ with err := some .badRef }, .error)
+        | some steps =>
+          let q := σ.nextPid
+          ({ σ with
+              nextPid := q + 1,
+              log := logHooks t q T.stack constructorHooks σ.log,
+              tasks := σ.tasks.set t { T with code := stepperOps q steps ++ .handler p T.stack false :: rest } }, .cont)
+      | .handler p s0 absorbing =>
+        ({ σ with tasks := σ.tasks.set t { T with code := rest },
+                  joins := ⟨t, p, s0, T.stack, absorbing⟩ :: σ.joins,
+                  log := if absorbing then ⟨p, .absorbed, current T.stack, T.stack, t⟩ :: σ.log else σ.log }, .cont)
+      | .throw => ({ σ with tasks := σ.tasks.set t { T with code := unwind .baseException 0 rest } }, .cont)
 
 /-- the test `while not f.done()` of the innermost nested `run_until_complete`: if its future is done the call returns
 into the task that made it -/
@@ -319,13 +409,28 @@ def run : Nat → State → Tid → State
 
 def totalCode (σ : State) : Nat := (σ.tasks.map (fun T => T.code.length)).sum
 
-def fuelOf (σ : State) : Nat := totalCode σ + 2 * σ.tasks.length + 4
+def Act.isInline : Act → Bool
+  | .inline _ => true
+  | _ => false
+
+/-- `Op.inline` splices the coroutine of the awaited child into the running task, so a tick may execute more operations
+than the tasks hold when it starts: at most `(M+1)^k` times as many, `M` = the longest stepping coroutine (plus its handler),
+`k` = the number of classes that await a child inline (= the deepest chain of inline awaits when no class awaits itself,
+directly or not; a class that does never finishes its step, in the code as here).  1 without inline awaits. -/
+def inlineFactor (scn : Scenario) : Nat :=
+  let m := (scn.classes.map (fun steps => (stepperOps 0 steps).length + 1)).foldl max 0
+  let k := (scn.classes.filter (fun steps => steps.any (fun s => s.code.any Act.isInline))).length
+  let kc := if scn.cbs.any (fun c => c.any Act.isInline) then 1 else 0
+  (m + 1) ^ (k + kc)
+
+def fuelOf (σ : State) : Nat := (totalCode σ + 2 * σ.tasks.length + 4) * inlineFactor σ.scn
 
 inductive Event
   | tick (t : Tid)
   | resume (t : Tid)
   | callSoon (p : Pid) (cb : Nat)   -- `p.call_soon(cb)` from code outside any task (RPC handler, harness), between two callbacks
   | kill (t : Tid)                  -- `kill()` of the process parked in task `t`, from code outside any task
+  | cancel (t : Tid)                -- `task.cancel()` of a task that is suspended (or not started), from code outside any task
 deriving DecidableEq, Repr, Inhabited
 
 /-- the context of code that runs between two callbacks: empty at top level, the context of the code that called
@@ -335,10 +440,20 @@ def loopStack (σ : State) : List Pid :=
   | [] => []
   | b :: _ => (σ.tasks[b]?.map (·.stack)).getD []
 
+/-- asyncio's `Task.__step` of a task whose cancellation was requested: the `CancelledError` is thrown into the
+coroutine at the point where it is suspended (at its very start if it never ran) -/
+def deliver (σ : State) (t : Tid) : State :=
+  match σ.tasks[t]? with
+  | none => σ
+  | some T =>
+    if T.cancelReq then
+      { σ with tasks := σ.tasks.set t { T with cancelReq := false, code := unwind .cancelled 0 T.code } }
+    else σ
+
 def step (σ : State) : Event → State
   | .tick t =>
     if σ.err.isSome then σ
-    else if ready σ t then run (fuelOf σ) σ t
+    else if ready σ t then run (fuelOf σ) (deliver σ t) t
     else { σ with err := some .notReady }
   | .resume t =>
     if σ.err.isSome then σ else
@@ -356,10 +471,23 @@ def step (σ : State) : Event → State
     | some T =>
       if T.parked then
         match T.code with
-        | .pop p :: _ =>
-          let T' : Task := { T with parked := false, code := .pop p :: hooksOps p (transitionHooks (some .waiting) .killed) }
+        | .pop p _ :: rest =>
+          -- `step_until_terminated` of the killed process returns; if it was awaited inline the awaiting code carries on
+          let code' := .pop p .interrupted :: (hooksOps p (transitionHooks (some .waiting) .killed) ++ toHandler 0 rest)
+          let T' : Task := { T with parked := false, code := code' }
           { σ with tasks := σ.tasks.set t T' }
         | _ => { σ with err := some .notReady }
+      else { σ with err := some .notReady }
+  | .cancel t =>
+    -- `Task.cancel()`: a task suspended on a future (a parked process) cancels that future and is woken up; a task
+    -- suspended at a bare yield (or not started) is flagged; either way it is ready and the error is thrown at its next
+    -- run.  Not for a finished task (no effect) nor for one inside a nested `run_until_complete` (it is running).
+    if σ.err.isSome then σ else
+    match σ.tasks[t]? with
+    | none => { σ with err := some .notReady }
+    | some T =>
+      if !T.done && T.waitingOn.isNone then
+        { σ with tasks := σ.tasks.set t { T with cancelReq := true, parked := false } }
       else { σ with err := some .notReady }
   | .callSoon p cb =>
     if σ.err.isSome then σ else
@@ -387,7 +515,7 @@ def loopCurrent (σ : State) : Option Pid := current (loopStack σ)
 
 def stepEndsOk : List Step → Bool
   | [] => false
-  | [s] => s.end_ == .finish || s.end_ == .raise
+  | [s] => s.end_ == .finish || s.end_ == .raise || s.end_ == .raiseBase
   | _ :: rest => stepEndsOk rest
 
 /-- scenarios the generated Python classes can express: every class ends with `finish`/`raise`, references resolve -/
@@ -396,6 +524,7 @@ def Scenario.wf (scn : Scenario) (top : List Nat) : Bool :=
     | .callSoon cb => cb < scn.cbs.length
     | .launch c => c < scn.classes.length
     | .execute c => c < scn.classes.length
+    | .inline c => c < scn.classes.length
     | _ => true
   scn.classes.all (fun steps => stepEndsOk steps && steps.all (fun s => s.code.all okAct))
   && scn.cbs.all (fun c => c.all okAct) && top.all (· < scn.classes.length)
